@@ -1405,19 +1405,22 @@ def _cases(ctx):
     quick = ctx.tier == 'quick'
     ks = list(range(1, 9))
     rot = [ctx.rng.randint(0, 1000)]
-    # the oracle first: if the contract does not hold the rest is meaningless (MachineryError)
-    yield from oracle_cases(ctx, 'threads', (3, 0, 1, 2, 4) if quick else (3, 0, 1, 2, 4, 5), ks)
-    yield from oracle_cases(ctx, 'procs', (3, 0, 1, 2) if quick else (3, 0, 1, 2, 4), [2, 1, 3, 8] if quick else [2, 1, 3, 4, 5, 6, 7, 8])
-
     def rotate(specs, count):
         out = []
         for _ in range(min(count, len(specs))):
             out.append(specs[rot[0] % len(specs)])
             rot[0] += 1
         return out
+    # the oracle first: if the contract does not hold the rest is meaningless (MachineryError)
+    yield from oracle_cases(ctx, 'threads', (3, 0, 1, 2, 4) if quick else (3, 0, 1, 2, 4, 5), ks)
+    yield from oracle_cases(ctx, 'procs', (3, 0, 1, 2) if quick else (3, 0, 1, 2, 4), [2, 1, 3, 8] if quick else [2, 1, 3, 4, 5, 6, 7, 8])
+
     # apply_pool, thread pools, every feasible schedule
     for n in (2, 0, 1):
-        yield from apply_pool_cases(ctx, 'threads', n, iface_specs(n), [2, 1, 3, 4, 5, 6, 7, 8], cs_threads, 'light' if (quick and n == 2) else 'full',
+        specs = iface_specs(n)
+        if quick and n == 2:
+            specs = rotate(specs, len(specs) // 2)       # the other half comes with another seed
+        yield from apply_pool_cases(ctx, 'threads', n, specs, [2, 1, 3, 4, 5, 6, 7, 8], cs_threads, 'light' if (quick and n == 2) else 'full',
                                     'api:apply_pool-threads', rot)
     yield from config_cases(ctx)
     yield from malformed_cases(ctx)
